@@ -69,6 +69,32 @@ def make_obs(ctx):
                           units=DT_UNITS, unwind=16, mem=True, replay='asan', group='strfd', timeout=300,
                           bounds={'format': f, 'buffer': '%d bytes (heap object of exactly that size)' % bz,
                                   'value': 'any ymd / ymcw / ywd / daisy / bizda value with in-range fields'}))
+    # (PT/FT) time parser and formatter, (PDT/FDT) date-time parser and formatter
+    tfm = ['%T', '%H:%M:%S', '%I:%M:%S %p', '%H', '%M', '%S', '%N', '%I%P', '%H:%M:%S.%N', '%T %', '%H%%']
+    tils = (0, 1, 2, 4) if ctx.tier == 'quick' else (0, 1, 2, 3, 4, 5, 6, 8)
+    for f in tfm:
+        for il in tils:
+            obs.append(Ob('strpt:%s:in%d' % (f.replace(' ', 'SPC'), il), H, 'h_strpt', {'CFMT': '"%s"' % f, 'FLEN': len(f), 'ILEN': il},
+                          units=DT_UNITS, unwind=max(il, len(f)) + 12, mem=True, replay='asan', group='strpt', timeout=300,
+                          remove_bodies=core.prune_cals(['ymd', 'daisy']),
+                          bounds={'format': f, 'input': '%d arbitrary non-NUL bytes in an object of exactly %d bytes' % (il, il + 1)}))
+        for bz in ((1, 2, 3, 4, 9, 10) if ctx.tier == 'quick' else (1, 2, 3, 4, 5, 8, 9, 10, 11, 12)):
+            obs.append(Ob('strft:%s:buf%d' % (f.replace(' ', 'SPC'), bz), H, 'h_strft', {'CFMT': '"%s"' % f, 'FLEN': len(f), 'BSZ': bz},
+                          units=DT_UNITS, unwind=16, mem=True, replay='asan', group='strft', timeout=300,
+                          remove_bodies=core.prune_cals(['ymd', 'daisy']),
+                          bounds={'format': f, 'buffer': '%d bytes' % bz, 'value': 'any h:m:s.ns incl. 24:00:00 and second 60'}))
+    dtfm = ['%FT%T', '%Y-%m-%dT%H:%M:%S', '%F %I:%M %p', '%s', '%T', '%F', '%FT%T %', '%d %b %Y %H:%M']
+    for f in dtfm:
+        for il in ((0, 1, 2, 4) if ctx.tier == 'quick' else (0, 1, 2, 3, 4, 5, 6)):
+            obs.append(Ob('strpdt:%s:in%d' % (f.replace(' ', 'SPC'), il), H, 'h_strpdt', {'CFMT': '"%s"' % f, 'FLEN': len(f), 'ILEN': il},
+                          units=DT_UNITS, unwind=max(il, len(f)) + 12, unwindset=['memcmp.0:64'], mem=True, replay='asan', group='strpdt', timeout=600,
+                          remove_bodies=core.prune_cals(['ymd', 'daisy']),
+                          bounds={'format': f, 'input': '%d arbitrary non-NUL bytes in an object of exactly %d bytes' % (il, il + 1)}))
+        for bz in ((1, 2, 4, 11, 19, 20) if ctx.tier == 'quick' else (1, 2, 3, 4, 5, 10, 11, 12, 19, 20, 21)):
+            obs.append(Ob('strfdt:%s:buf%d' % (f.replace(' ', 'SPC'), bz), H, 'h_strfdt', {'CFMT': '"%s"' % f, 'FLEN': len(f), 'BSZ': bz},
+                          units=DT_UNITS, unwind=24, mem=True, replay='asan', group='strfdt', timeout=600,
+                          remove_bodies=core.prune_cals(['ymd', 'daisy']),
+                          bounds={'format': f, 'buffer': '%d bytes' % bz, 'value': 'any ymd date (day 1..31) with any h:m:s'}))
     return obs
 
 
